@@ -259,7 +259,8 @@ def extOf (env : KeyEnv) (ctx : Ctx) : Ms → ExtData
   | .fls => ExtData.FALSE
   | .pkK k => ExtData.pkK ctx (isUnc env k)
   | .pkH k => ExtData.pkH ctx (isUnc env k)
-  | .rawPkH _ => ExtData.pkH ctx false
+  -- `pk_h(None)`: the largest key the context's consensus rules allow (uncompressed in Bare/Legacy)
+  | .rawPkH _ => ExtData.pkH ctx (ctx == .bare || ctx == .legacy)
   | .multi k ks | .sortedMulti k ks => ExtData.multi k (ks.map (isUnc env))
   | .multiA k ks | .sortedMultiA k ks => ExtData.multiA k ks.length
   | .after n => ExtData.after n
